@@ -11,6 +11,7 @@ from embgen import model as M
 PRELUDE = r"""
 #include <cstdint>
 #include <cstdio>
+#include <cstdlib>
 #include <cstring>
 #include <iostream>
 #include <sstream>
@@ -173,6 +174,19 @@ class DriverGen(object):
         L.append("        default: break;")
         L.append("      }")
         L.append("      delete[] buf;")
+        L.append("    }")
+        L.append("    if (tok[0] == \"A\") {")
+        L.append("      // A <struct> <alignment> <hex> [params]: the same view through MakeAligned...View over aligned storage")
+        L.append("      int si = std::stoi(tok[1]); int al = std::stoi(tok[2]); std::vector<unsigned char> b = unhex(tok[3]);")
+        L.append("      std::size_t cap = ((b.size() + 15) / 16 + 1) * 16; unsigned char *buf = static_cast<unsigned char *>(aligned_alloc(16, cap)); if (!b.empty()) std::memcpy(buf, b.data(), b.size());")
+        L.append("      switch (si * 10 + (al == 8 ? 3 : al == 4 ? 2 : 1)) {")
+        for i, st in enumerate(self.top_structs()):
+            args = "".join(self.param_cast(pt, 4 + k) + ", " for k, (pn, pt) in enumerate(st.params))
+            for code, al in ((1, 2), (2, 4), (3, 8)):
+                L.append("        case %d: { auto v = %s::MakeAligned%sView<unsigned char, %d>(%sbuf, b.size()); %s(\"v\", v, 0); break; }" % (i * 10 + code, cpp_ns(self.m), st.name, al, args, self.obs_names[id(st)]))
+        L.append("        default: break;")
+        L.append("      }")
+        L.append("      free(buf);")
         L.append("    }")
         L.append(body_extra)
         L.append("    std::printf(\"END\\n\"); std::fflush(stdout);")
